@@ -571,7 +571,16 @@ fn psweep(label: &str, n: usize, level: Level, j: super::progspace::Judge) -> Bo
 /// statements.
 struct Crunched;
 
-const CRUNCH_LINES: [&str; 14] = [
+const CRUNCH_LINES: [&str; 22] = [
+    // the same word twice in one run of letters, two-letter words next to suffixed names, radix literals
+    "IF A AND B AND C THEN 10",
+    "PRINT A OR B OR C;A MOD B MOD C",
+    "IF NOT A AND NOT B THEN 10",
+    "IF A$=B$ OR B!=2 THEN 10",
+    "FOR I%=1 TO N%:NEXT I%",
+    "ON K% GOTO 10,20",
+    "PRINT &HFF;A AND &17",
+    "FOR I=&H1 TO &H3 STEP &1:NEXT",
     "PRINT J MOD K;17 MOD I",
     "PRINT A AND B OR C XOR Q IMP E EQV NOT F",
     "FOR I=1 TO 9 STEP 2:NEXT I",
